@@ -100,53 +100,56 @@ def loadGens (s : HistStore) : List LGen :=
     if g.state == .missing then none else (parseGenName g.fileName).map fun n => (⟨n, g⟩ : LGen)
   isort (fun a b => a.number ≤ b.number) found
 
-/-- `load_from_path` for the folder at `here` holding `store` (none = no `ascmhl` folder):
-chain present?, chain check, manifests; then `kids` = the already loaded child histories.
-A modified (but present) manifest that is parsed is assumed to still parse; a manifest that no longer parses is
-outside this model (it is an uncaught XMLSyntaxError in the code). -/
-def loadOne (here : RelPath) (store : Option HistStore) (kids : List Hist) : Except Err Hist :=
+/-- the checks `load_from_path` makes on the folder itself, before it looks for nested histories: chain file
+present, then every chain entry -/
+def checkStore (store : Option HistStore) : Except Err Unit :=
   match store with
-  | none => pure (.mk here [] [] false kids)
-  | some s =>
-    if !s.chainPresent then throw errNoChain
-    else do
-      checkChain s
-      pure (.mk here (loadGens s) s.chain true kids)
+  | none => pure ()
+  | some s => if !s.chainPresent then throw errNoChain else checkChain s
+
+/-- the loaded history of the folder at `here` holding `store` (none = no `ascmhl` folder) with the already loaded
+child histories.  A modified (but present) manifest that is parsed is assumed to still parse; a manifest that no
+longer parses is outside this model (it is an uncaught XMLSyntaxError in the code). -/
+def buildHist (here : RelPath) (store : Option HistStore) (kids : List Hist) : Hist :=
+  match store with
+  | none => .mk here [] [] false kids
+  | some s => .mk here (loadGens s) s.chain true kids
+
+/-- `load_from_path` of one folder given its child histories -/
+def loadOne (here : RelPath) (store : Option HistStore) (kids : List Hist) : Except Err Hist := do
+  checkStore store
+  pure (buildHist here store kids)
 
 mutual
-/-- `_find_and_load_child_histories`: `os.walk` top-down with sorted sub-folders; a folder (other than the history
-root) that contains an `ascmhl` folder is loaded as a child history and not descended into by this walk.
-Returns the children in discovery order.  Ignore patterns play no role here. -/
+/-- `_find_and_load_child_histories`: `os.walk` top-down with SORTED sub-folders; a folder (other than the history
+root) that contains an `ascmhl` folder is loaded as a child history (its own chain first, then its own children) and
+not descended into by this walk.  The per-child results are computed in stored order and then evaluated in the order
+of the names, so the first problem in walk order wins whatever order the OS lists in.  Ignore patterns play no role. -/
 def findChildren (here : RelPath) : Node → Except Err (List Hist)
   | .file _ _ => pure []
-  | .dir _ cs _ => do
-    let found ← findChildrenList here cs
-    pure ((isort (fun a b => strLe a.1 b.1) found).flatMap (·.2))
-/-- per child (stored order): its name and the child histories found at or below it -/
-def findChildrenList (here : RelPath) : List Node → Except Err (List (String × List Hist))
-  | [] => pure []
-  | c :: cs => do
-    let r ← match c with
-      | .file _ _ => pure []
-      | .dir n _ h =>
-        match h with
-        | some s => do
-          let kids ← findChildren (here ++ [n]) c
-          let hst ← loadOne (here ++ [n]) (some s) kids
-          pure [hst]
-        | none => findChildren (here ++ [n]) c
-    let rest ← findChildrenList here cs
-    pure ((c.name, r) :: rest)
+  | .dir _ cs _ =>
+    let found : List (String × Except Err (List Hist)) := findChildrenList here cs
+    let sorted := isort (fun (a b : String × Except Err (List Hist)) => strLe a.1 b.1) found
+    (sorted.mapM fun (x : String × Except Err (List Hist)) => x.2).map List.flatten
+/-- per child (stored order): its name and the child histories found at or below it (or the first problem there) -/
+def findChildrenList (here : RelPath) : List Node → List (String × Except Err (List Hist))
+  | [] => []
+  | c :: cs =>
+    let r : Except Err (List Hist) :=
+      match c.hist with
+      | some s => do
+        checkStore (some s)
+        let kids ← findChildren (here ++ [c.name]) c
+        pure [buildHist (here ++ [c.name]) (some s) kids]
+      | none => findChildren (here ++ [c.name]) c
+    (c.name, r) :: findChildrenList here cs
 end
 
-/-- NOTE on error order: the code loads the children in walk order and stops at the first failing one; the model
-evaluates the children in STORED order and sorts afterwards, so with two or more damaged histories the reported
-code may be that of another one.  For a single fault (C05) the result is the same. -/
+/-- `MHLHistory.load_from_path(root)`: the root folder's own checks, then the nested histories -/
 def loadHistory (t : Node) : Except Err Hist := do
-  -- the root history is checked before its children are looked for
-  let root ← loadOne [] t.hist []
+  checkStore t.hist
   let kids ← findChildren [] t
-  pure (.mk root.root root.gens root.chain root.folderExists kids)
+  pure (buildHist [] t.hist kids)
 
 /-! ## lookups over the generations of one history -/
 
